@@ -4,7 +4,7 @@
 //! of the last player line carries symbolic digits.
 #![allow(unused_imports)]
 
-use crate::c02::Enc;
+use crate::common::Enc;
 use crate::common::*;
 use crate::silent::*;
 use gamedig::protocols::quake;
